@@ -19,6 +19,6 @@ Task: make ONE small source change to the library (a plausible refactoring slip,
   (a) the package still imports and the existing test suite still passes unchanged (all 658 tests: run it and confirm), and
   (b) the breakage needs something specific to manifest — a particular interleaving, a fault at a particular point, a multi-step sequence of operations, an unusual input or configuration — not something ordinary use would expose at once.
 {extra}
-Also write a demonstration `{wt}/demo_{pid}.py`: a small standalone program (exit status 1 and a printed explanation when the property is violated, exit 0 when it holds) that fails WITH your change and passes WITHOUT it (check both: use `git stash` / `git stash pop`, or `git diff > /tmp/x.patch; git checkout -- operon_ai; ...; git apply /tmp/x.patch`). The demo must only use the library's public behaviour and must be deterministic (if threads are needed, force the interleaving deterministically, e.g. with events/monkeypatched hooks inside the demo, not with sleeps and luck).
+Also write a demonstration `{wt}/demo_{pid}.py`: a small standalone program (exit status 1 and a printed explanation when the property is violated, exit 0 when it holds) that fails WITH your change and passes WITHOUT it (check both: use `git diff > /tmp/x.patch; git checkout -- operon_ai; ...; git apply /tmp/x.patch`). The demo must only use the library's public behaviour and must be deterministic (if threads are needed, force the interleaving deterministically, e.g. with events/monkeypatched hooks inside the demo, not with sleeps and luck).
 
 Leave the change uncommitted in the worktree (I will collect it with `git diff`). Do not edit tests. Final answer (short): the diff summary, why it breaks the property, what it needs to manifest, and the exact commands you ran with their results (test suite with the change; demo with and without).""")
